@@ -1249,3 +1249,180 @@ def family_lzma(ctx, j, quick, rnd, pool):
     tc = dict(Expecteds="{0}", WriteSizes="{0}", MaxCalls="1000000")
     validate_generic(ctx, j, "Trace_LzmaAlone", tc, events, index, LA_TRACE_INV, LA_INV_PROP, la_sig, "lzma_write")
     return scns, res
+
+
+# --------------------------------------------------------------------------- reading assembled inputs (C12 C16, C03 ref -> ours)
+def xz_part(st, rnd, src=None, unit=UNIT):
+    """Abstract stream of the model -> a stream part of the `read` family (written by the crate, liblzma or the forge)."""
+    src = src or rnd.choice(["ours", "ours", "ref", "forge"])
+    chain = chain_for(st["hsize"], rnd) if src == "ours" else rnd.choice(CHAINS[12])
+    opt = {"preset": rnd.choice([0, 1, 3, 6]), "dict": max(st.get("dict", DICT_UNITS) * unit, 4096), "check": CHECK_NAME[st["check"]], "filters": chain}
+    p = {"k": "xz", "src": src, "opt": opt, "n": st["units"] * unit, "class": rnd.choice(["text", "seq", "lowent", "zeros", "periodic"]),
+         "seed": rnd.getrandbits(32)}
+    if src == "ours":
+        if st["limit"]:
+            opt["limit"] = st["limit"] * unit
+        p["writes"] = [n * unit for (op, n) in st["calls"] if op == "w"]
+    else:
+        cuts, acc = [], 0
+        for u in st["us"][:-1]:
+            acc += u * unit
+            cuts.append(acc)
+        p["cuts"] = cuts
+        if src == "forge":
+            p["hc"], p["hu"] = rnd.random() < 0.7, rnd.random() < 0.7
+    return p
+
+
+def concat_scn(sid, a, rnd, reads=None):
+    parts = []
+    for i, st in enumerate(a["streams"]):
+        parts.append(xz_part(st, rnd))
+        k = a["pads"][i] if i < len(a["pads"]) else 0
+        if k:
+            parts.append({"k": "zeros", "n": k})
+    if a["trail"] == "garbage":
+        parts.append({"k": "random", "n": rnd.randint(1, 24), "seed": rnd.getrandbits(16)})
+    return {"id": sid, "fam": "read", "fmt": "xz", "multi": bool(a["multi"]), "parts": parts, "seed": rnd.getrandbits(32),
+            "reads": reads or rnd.choice([[4096], [1], [7, 4096, 3], [65536], [1000]]), "abstract": a}
+
+
+def read_sig(s):
+    a = s.get("abstract") or {}
+    pads = a.get("pads") or []
+    interior = pads[:-1]
+    return {"family": "read_" + s["fmt"], "multi": bool(s.get("multi")), "streams": len(a.get("streams") or []) or sum(1 for p in s["parts"] if p["k"] == s["fmt"]),
+            "interior_pad": "none" if not interior else ("bad" if any(k % 4 for k in interior) else ("zero" if not any(interior) else "ok")),
+            "trailing": a.get("trail") or s.get("trailing") or "none"}
+
+
+def stream_ends(s, r):
+    """offsets (in the assembled input) of the ends of the stream parts, in order"""
+    return [e for p, e in zip(s["parts"], r["ends"]) if p["k"] == s["fmt"]]
+
+
+def judge_concat_xz(j, s, r, predicted=None, source="tlc-scn"):
+    base = read_sig(s)
+    rep = {"scenario": strip(s), "source": source}
+    j.nruns += 1
+    if r["outcome"] in ("build_err", "panic", "bad_family"):
+        raise ToolError(f"read scenario {s['id']} could not be built / ran into {r['outcome']}: {r.get('err')}")
+    a = s["abstract"]
+    nst = len(a["streams"])
+    ends = stream_ends(s, r)
+    lens = [x for p, x in zip(s["parts"], r["content_lens"]) if p["k"] == "xz"]
+    srcs = "+".join(p["src"] for p in s["parts"] if p["k"] == "xz")
+    j.classes.add(("read_xz", base["multi"], nst, base["interior_pad"], base["trailing"], (a["pads"] or [0])[-1] % 4 == 0, r["outcome"], srcs))
+    interior_ok = all(k % 4 == 0 for k in a["pads"][:-1])
+    endpad_ok = a["pads"][-1] % 4 == 0
+    if s["multi"]:
+        if interior_ok and endpad_ok and a["trail"] == "none":
+            if not (r["outcome"] == "eof" and r["matched"] == nst):
+                j.violation("C12", f"XZReader (multi-stream) on {nst} concatenated streams with padding {a['pads']}: "
+                                   f"{r['err'] or ('decoded %d bytes = first %d streams' % (r['out_len'], r['matched']))}", dict(base, outcome="concat"), rep)
+        if not interior_ok and r["outcome"] != "err":
+            j.violation("C12", f"XZReader (multi-stream) accepted stream padding {a['pads'][:-1]} (not a multiple of four) between streams",
+                        dict(base, outcome="bad_padding_accepted"), rep)
+    else:
+        if not (r["outcome"] == "eof" and r["matched"] >= 1):
+            j.violation("C12", f"XZReader (single-stream) on {nst} concatenated streams: {r['err'] or ('decoded %d bytes, not a prefix of streams' % r['out_len'])}",
+                        dict(base, outcome="single_stream"), rep)
+        elif r["out_len"] != lens[0]:
+            j.violation("C12", f"XZReader (single-stream) did not stop after the first stream: {r['out_len']} bytes, first stream holds {lens[0]}",
+                        dict(base, outcome="single_stream"), rep)
+        if r["outcome"] == "eof" and r["consumed"] != ends[0]:
+            j.violation("C16", f"XZReader (single-stream) consumed {r['consumed']} bytes; the first stream ends at {ends[0]} "
+                               f"(followed by {r['input_len'] - ends[0]} bytes)", dict(base, outcome="consumed"), rep)
+    # forge / reference sanity: liblzma must agree that the assembled valid input is valid
+    if interior_ok and endpad_ok and a["trail"] == "none" and not r["ref"]["ok"]:
+        raise ToolError(f"liblzma rejects the assembled input of {s['id']} ({srcs}): {r['ref']['err']} - forge / bridge bug")
+    if predicted is not None:
+        want_st = predicted["st"]
+        want_out = predicted["out"] * UNIT
+        if r["outcome"] != want_st or (want_st == "eof" and r["out_len"] != want_out):
+            return f"reader outcome {r['outcome']}/{r['out_len']} differs from the model's {want_st}/{want_out}"
+    return None
+
+
+JUDGES["read"] = lambda j, s, r, source="replay": (judge_concat_xz if "abstract" in s and "streams" in (s.get("abstract") or {}) else judge_consume)(j, s, r, None, source)
+
+
+def family_concat_xz(ctx, j, quick, rnd, pool):
+    t0 = time.time()
+    inv = ["TypeOK", "XConcat", "XConsumesExactly", "XRoundTrip", "Export"]
+    base = dict(CSizes="{5}", HSizes="{12}", MaxBlocks="3", DictUnits="1", AllowFlush="FALSE", Trailings='{"none","garbage"}', Multis="{FALSE,TRUE}")
+    cfgs = [("2 streams", xz_consts(**dict(base, CheckIds="{0,4}", LimitOpts="{0,1}" if not quick else "{0}", MaxUnits="2", MaxWrite="2",
+                                         MaxStreams="2", Pads="{0,4,8,1,2,3,5}"))),
+            ("3 streams", xz_consts(**dict(base, CheckIds="{1}" if quick else "{1,10}", LimitOpts="{0}", MaxUnits="1", MaxWrite="1",
+                                         MaxStreams="3", Pads="{0,4,3}" if quick else "{0,4,8,2,5}")))]
+    futs = [(name, pool.submit(xz_model, c, inv, 4, 900, True)) for name, c in cfgs]
+    probes = []
+    val, what = REGRESSIONS["MagicTestInverted"]
+    if ASBUILT["MagicTestInverted"] != val:
+        pc = dict(cfgs[1][1])
+        pc["MagicTestInverted"] = val
+        probes.append(("MagicTestInverted", pool.submit(xz_model, pc, ["TypeOK", "XConcat"], 2, 600, False)))
+    scns, meta, exported = [], [], []
+    for name, f in futs:
+        r = f.result()
+        ctx.note_tlc(f"XzContainer concat design ({name}, as built)", r)
+        log(f"[tlc] XzContainer concat ({name}): {r}")
+        if r.ok:
+            ctx.require_coverage(r, ["Finish", "RHeader", "RBlock", "RIndex", "RScan", "RDone"], "XzContainer concat " + name)
+            exported += printed_json(r, "scn")
+        else:
+            cx = cex_scenarios(r)
+            if not cx:
+                raise ToolError(f"XzContainer concat: TLC reports {r.violated} without an exported counter-example")
+            for i, c in enumerate(cx[:2]):
+                scns.append(concat_scn(f"cex-{r.violated}-{name[0]}-{i}", c, rnd))
+                meta.append(("tlc-cex", c, r.violated))
+            # the behaviours explored before the violation are still replayed
+            exported += printed_json(r, "scn")
+    for (k, f) in probes:
+        pr = f.result()
+        ctx.add("regression_models_checked")
+        if pr.ok:
+            raise ToolError(f"regressed design {k} does not violate Concat: the probe is vacuous")
+        for i, c in enumerate(cex_scenarios(pr)[:2]):
+            scns.append(concat_scn(f"probe-{k}-{i}", c, rnd))
+            meta.append(("tlc-regression-cex:" + k, None, pr.violated))
+            ctx.add("regression_probes")
+    seen, uniq = set(), []
+    for c in exported:
+        key = json.dumps([[(st["check"], st["limit"], st["calls"]) for st in c["streams"]], c["pads"], c["trail"], c["multi"]])
+        if key not in seen:
+            seen.add(key)
+            uniq.append(c)
+    if len(uniq) < 30 and not scns:
+        raise ToolError(f"concat export produced only {len(uniq)} behaviours")
+    cap = 400 if quick else 5000
+    if len(uniq) > cap:
+        # keep the classes balanced: sample per (multi, number of streams, pad class, trailing)
+        groups = collections.defaultdict(list)
+        for c in uniq:
+            pads = c["pads"]
+            groups[(c["multi"], len(c["streams"]), tuple(k % 4 == 0 for k in pads), tuple(k == 0 for k in pads), c["trail"])].append(c)
+        per = max(1, cap // max(1, len(groups)))
+        uniq = [c for g in groups.values() for c in (g if len(g) <= per else rnd.sample(g, per))]
+    for i, c in enumerate(uniq):
+        scns.append(concat_scn(f"cat-{i}", c, rnd))
+        meta.append(("tlc-scn", c, None))
+    res = run_scenarios(scns)
+    log(f"[impl] read/xz concat: {len(scns)} assembled inputs decoded by the real XZReader (+ liblzma) in {time.time()-t0:.1f}s")
+    ndiv = 0
+    for s, r1, (src, c, inv1) in zip(scns, res, meta):
+        div = judge_concat_xz(j, s, r1, predicted=c if src == "tlc-scn" else None, source=src)
+        if div:
+            ndiv += 1
+            if ndiv <= 3:
+                ctx.note_drift(f"read {s['id']}: {div}")
+        if src == "tlc-cex":
+            a = s["abstract"]
+            nst = len(a["streams"])
+            ok_all = r1["outcome"] == "eof" and r1["matched"] == (nst if s["multi"] else 1)
+            if ok_all and all(k % 4 == 0 for k in a["pads"]) and a["trail"] == "none":
+                raise ToolError(f"TLC reports {inv1} for the as-built XzContainer design but the implementation does not reproduce it ({s['id']})")
+    ctx.add("behaviours_replayed", len(uniq))
+    ctx.add("replay_divergences", ndiv)
+    return scns, res
